@@ -11,6 +11,8 @@ import (
 	"go/token"
 	"strings"
 	"unicode"
+
+	"github.com/dave/jennifer/jen"
 )
 
 func panicShape(msg string) string {
@@ -852,21 +854,51 @@ func genCloneCase(cx *CheckCtx, i int) *Case {
 	c := &Case{ID: fmt.Sprintf("C20-%d-%d", cx.Seed, i)}
 	c.Ops = append(c.Ops, Op{Kind: OpFile, F: 0, Str: []string{"new", "", "p"}})
 	tokn := 0
+	// every kind of item a statement can end in at the moment it is cloned or appended to:
+	// tokens, keywords (incl. default), literals, groups (incl. Case), null and layout tokens.
+	// Block is left out: a Block directly after Case/Default drops its braces only when both are
+	// items of the SAME statement (boundary lemma C13.boundary_case_block), which the flat list
+	// model cannot see through a clone.
+	one := func() SItem {
+		tokn++
+		switch r.Intn(16) {
+		case 0, 1:
+			return op(pick(r, []string{"+", "-", ":=", ".", "*"}))
+		case 2, 3:
+			return &Grp{Api: "Call", Args: []Arg{st(mkLit(tokn))}}
+		case 4:
+			return &Grp{Api: "Case", Args: []Arg{st(mkLit(tokn)), st(id(fmt.Sprintf("c%d", tokn)))}}
+		case 5:
+			return kw(pick(r, []string{"Default", "Break", "Var", "Func", "Continue", "Fallthrough"}))
+		case 6:
+			return &Grp{Api: pick(r, []string{"Index", "Parens", "Values", "List", "Params"}), Args: []Arg{st(id(fmt.Sprintf("g%d", tokn)))}}
+		case 7:
+			return mkLit(fmt.Sprintf("s%d", tokn))
+		case 8:
+			return Tok{Api: pick(r, []string{"Null", "Line", "Empty"})}
+		default:
+			return id(fmt.Sprintf("t%d", tokn))
+		}
+	}
 	toks := func() []SItem {
 		n := 1 + r.Intn(9)
 		var out []SItem
 		for j := 0; j < n; j++ {
-			tokn++
-			switch r.Intn(4) {
-			case 0:
-				out = append(out, op("+"))
-			case 1:
-				out = append(out, &Grp{Api: "Call", Args: []Arg{st(mkLit(tokn))}})
-			default:
-				out = append(out, id(fmt.Sprintf("t%d", tokn)))
-			}
+			out = append(out, one())
 		}
 		return out
+	}
+	nfile := 0
+	// observation: the statement added to a fresh NoFormat File and rendered (raw bytes: every
+	// token counts, nothing is rejected by the formatter), or rendered as a formatted fragment
+	observe := func(reg int) {
+		if r.Chance(30) {
+			c.Ops = append(c.Ops, Op{Kind: OpFrag, S: reg, F: 0})
+			return
+		}
+		nfile++
+		c.Ops = append(c.Ops, Op{Kind: OpFile, F: nfile, Str: []string{"new", "", "p"}}, Op{Kind: OpSet, F: nfile, Str: []string{"noformat", "1"}},
+			Op{Kind: OpFAdd, F: nfile, Args: []Arg{Ref{Reg: reg}}}, Op{Kind: OpRender, F: nfile})
 	}
 	regs := []int{1}
 	c.Ops = append(c.Ops, Op{Kind: OpStmt, S: 1, Items: toks()})
@@ -881,11 +913,11 @@ func genCloneCase(cx *CheckCtx, i int) *Case {
 			c.Ops = append(c.Ops, Op{Kind: OpApp, S: pick(r, regs), Items: toks()})
 		}
 		if r.Chance(60) {
-			c.Ops = append(c.Ops, Op{Kind: OpFrag, S: pick(r, regs), F: 0})
+			observe(pick(r, regs))
 		}
 	}
 	for _, rg := range regs {
-		c.Ops = append(c.Ops, Op{Kind: OpFrag, S: rg, F: 0})
+		observe(rg)
 	}
 	return c
 }
@@ -900,6 +932,7 @@ func oracleC20(cx *CheckCtx, runs []*CaseRun) []Finding {
 		}
 		cx.Stats.OracleCases++
 		origin := map[int]int{}
+		fileRef := map[int]int{}
 		own := map[int][]SItem{}
 		var flat func(r int) []SItem
 		flat = func(r int) []SItem {
@@ -919,14 +952,33 @@ func oracleC20(cx *CheckCtx, runs []*CaseRun) []Finding {
 			case OpClone:
 				origin[o.S] = o.S2
 				own[o.S] = nil
-			case OpFrag:
+			case OpFAdd:
+				if len(o.Args) == 1 {
+					if rf, ok := o.Args[0].(Ref); ok {
+						fileRef[o.F] = rf.Reg
+					}
+				}
+			case OpFrag, OpRender:
 				ri++
 				if ri >= len(cr.Real) {
 					continue
 				}
-				want := NewReal(&FormChooser{Fixed: 1, r: NewRng(1)}).buildStmt(&Stmt{Items: flat(o.S)})
+				reg := o.S
+				if o.Kind == OpRender {
+					reg = fileRef[o.F]
+				}
+				want := NewReal(&FormChooser{Fixed: 1, r: NewRng(1)}).buildStmt(&Stmt{Items: flat(reg)})
 				var b bytes.Buffer
-				err := want.Render(&b)
+				var err error
+				if o.Kind == OpRender {
+					wf := jen.NewFile("p")
+					wf.NoFormat = true
+					wf.Add(want)
+					err = wf.Render(&b)
+				} else {
+					err = want.Render(&b)
+				}
+				o.S = reg
 				obs := cr.Real[ri]
 				if (err == nil) != (obs.Class == "ok") || (err == nil && b.String() != obs.Out) {
 					fs = append(fs, Finding{Property: "C20", Shape: "clone-history-diverges", What: fmt.Sprintf("statement S%d renders differently from the list model after this history", o.S), Case: cr.Case.Text(), Expected: trunc(b.String()), Observed: trunc(obs.Out + obs.Err)})
